@@ -216,6 +216,10 @@ func refValidate(roots []*rnode, p []string, allow bool) (ok bool, bad int, why 
 					// an empty leaf takes no value at all: the value itself is the offender
 					return false, i, "value for empty leaf"
 				}
+				// (a value the type rejects comes first in the path and is the first offending element)
+				if cur.typ != nil && !cur.typ.Accepts(p[i]) {
+					return false, i, "invalid value"
+				}
 				return false, i + 1, "trailing element"
 			}
 			if cur.typ != nil && !cur.typ.Accepts(p[i]) {
@@ -289,6 +293,26 @@ func c17Walks(r *core.Rng, roots []*rnode, limit int) [][]string {
 	}
 	rec(roots, nil)
 	return out
+}
+
+// c17BadElement: the bad-element info of an unknown-element error ("" if the error carries none).
+func c17BadElement(err error) string {
+	raw, e := json.Marshal(err)
+	if e != nil {
+		return ""
+	}
+	var m struct {
+		Info []map[string]string `json:"error-info"`
+	}
+	if json.Unmarshal(raw, &m) != nil {
+		return ""
+	}
+	for _, i := range m.Info {
+		if v, ok := i["bad-element"]; ok {
+			return v
+		}
+	}
+	return ""
 }
 
 func (p *c17) Describe(tier string, seed int64, idx int) string {
@@ -365,7 +389,12 @@ func (p *c17) Run(tier string, seed int64, idx int) core.CaseResult {
 			if len(path[:bad]) == 0 {
 				wantA = ""
 			}
-			if ep != wantA && ep != wantB {
+			// an unknown-element error names its offending element explicitly: it must be the first offending token
+			badElem := c17BadElement(err)
+			if badElem != "" && bad < len(path) && badElem != path[bad] {
+				res.Fail("C17/error-does-not-identify-first-offending-element/"+strings.ReplaceAll(why, " ", "-"), in,
+					fmt.Sprintf("reference: first offending token is %q at index %d (%s); the error names the element %q: %v", path[bad], bad, why, badElem, err))
+			} else if ep != wantA && ep != wantB {
 				res.Fail("C17/error-does-not-identify-first-offending-element/"+strings.ReplaceAll(why, " ", "-"), in,
 					fmt.Sprintf("reference: first offending token index %d (%s); error-path %q; error: %v", bad, why, ep, err))
 			} else if bad < len(path) && !strings.Contains(fmt.Sprintf("%v %s", err, jsonStr(err)), path[bad]) && path[bad] != "" {
@@ -420,6 +449,9 @@ func (p *c17) Run(tier string, seed int64, idx int) core.CaseResult {
 				_, b := sampleValue(r, k.typ)
 				if b != "\x00" {
 					try(append(append([]string{}, p2...), b), "corrupted_paths")
+					// two faults: the rejected value, then a surplus token (the value is the first one)
+					try(append(append([]string{}, p2...), b, "extra"), "corrupted_paths")
+					res.Ev("paths_with_a_bad_value_followed_by_a_surplus_token", 1)
 				}
 			}
 		}
